@@ -430,6 +430,9 @@ def check_i2(rep, max_len=8):
                     if v.get("kind") == "VarDecl" and A.kids(v):
                         env[v.get("name")] = ev(A.to_expr(A.kids(v)[-1]))
             elif k == "IfStmt":
+                if ks and ks[0].get("kind") == "DeclStmt":      # if (init; cond)
+                    ex(ks[0])
+                    ks = ks[1:]
                 if ev(A.to_expr(ks[0])):
                     ex(ks[1])
                 elif len(ks) > 2:
